@@ -8,17 +8,21 @@ use crate::c01::{operand_def, gen_operand, KINDS};
 
 fn annot(kind: &str, matrix: bool) -> String { if matrix { format!("<[{}]>", kind) } else { format!("<{}>", kind) } }
 
-pub fn exec(case: &str) -> String {
+pub fn source(case: &str) -> String {
   let f: Vec<&str> = case.split('\t').collect();
-  let src = match f[0] {
+  match f[0] {
     "conv" => {
       let is_mat = f[3].starts_with('M');
       format!("{}y{} := x", operand_def("x", f[1], f[3], false), annot(f[2], is_mat))
     }
     "reshape" => format!("{}y<[{}]:{},{}> := x", operand_def("x", f[1], f[2], false), f[5], f[3], f[4]),
     "toset" => format!("{}y<{{{}}}> := x", operand_def("x", f[1], f[2], false), f[1]),
-    _ => return "bad-proto".into(),
-  };
+    _ => "bad-proto".into(),
+  }
+}
+
+pub fn exec(case: &str) -> String {
+  let src = source(case);
   match eval(&src) {
     Ok(v) => canon(&v),
     Err(e) => if e == "hostpanic" || e == "notcode" || e == "parseerr" || e == "parsepanic" { format!("harness:{}:{}", e, hexs(&src)) } else { "err".to_string() },
